@@ -169,7 +169,31 @@ func scenarioC09(r *Run) {
 		s := g.Session(p, SessShape{NQER: nq, ExtraPDRs: r.Ch.Choose(2, "ex")})
 		shape := fmt.Sprintf("q%d", nq)
 		// list shapes
-		switch r.Ch.Choose(5, "listshape") {
+		switch r.Ch.Choose(6, "listshape") {
+		case 5: // one QER of its own per PDR pair + one QER shared by all (last in every list)
+			if nq >= 2 {
+				shared := s.QERs[nq-1]
+				for k, pd := range s.PDRs {
+					own := s.QERs[(k/2)%(nq-1)]
+					pd.QERIDs = []uint32{own.ID, shared.ID}
+				}
+				// the shared one may limit one direction only
+				switch r.Ch.Choose(4, "shared-one-direction") {
+				case 1:
+					shared.HasMBR, shared.MBRUL = true, 0
+					if shared.MBRDL == 0 {
+						shared.MBRDL = 50000
+					}
+					shared.GBRUL = 0
+				case 2:
+					shared.HasMBR, shared.MBRDL = true, 0
+					if shared.MBRUL == 0 {
+						shared.MBRUL = 50000
+					}
+					shared.GBRDL = 0
+				}
+				shape += "-own+shared"
+			}
 		case 1: // reversed order on downlink PDRs
 			for _, pd := range s.PDRs {
 				if pd.SrcIface == IfCore {
